@@ -171,6 +171,14 @@ static void bspline_monitor(Report & rep)
     for (double t : times) {
       tcur = t;
       const G g = spl(t, velS, accS);
+      {
+        // the optional outputs do not influence the value (or each other)
+        Tangent v1;
+        const G g0 = spl(t), g1 = spl(t, v1);
+        L w = std::max(orc::maxabs(rawL(g0) - rawL(g)), orc::maxabs(rawL(g1) - rawL(g)));
+        w   = std::max(w, orc::maxabs(toL(v1) - toL(velS)));
+        rep.judge(T + ".optional_outputs_consistent", st, w == w ? w : INFINITY, 0, det);
+      }
       const OraclePoint o = bspline_oracle(l, K, Bcum, t0, dt, cl, t);
       rep.judge(T + ".value", st, orc::err_rel1(elemL(l, g), o.p.G), 1e-9L, det);
       const bool inside = t >= t0 && t < tmax;
